@@ -588,7 +588,8 @@ CHECKS["C04"]["level_text"] += _FLIP
 CHECKS["C05"]["level_text"] += _FLIP
 CHECKS["C14"]["level_text"] += (" Message sizes are exact on the wire and drawn around the limit (limit-17 ... limit+64). Request rates: websocket connects "
                                 "and session creations are hammered from one address for 1.2 s against --ws-connects-per-min / --session-creates-per-min "
-                                "(admitted <= burst + rate*elapsed + 1; 0 = unlimited).")
+                                "(admitted <= burst + rate*elapsed + 1; 0 = unlimited), and at 6 per minute with burst 2 in two 300 ms bursts around 2.4 s of silence "
+                                "(same bound over the whole time: a drained address must not be forgotten early).")
 CHECKS["C15"]["level_text"] += (" The decoder ring also feeds announced counts that agree with each other (chunk count and bitmap length) and lengths that "
                                 "are whole multiples of the readers' 64 KiB step with all but the last step delivered; every decoder call runs under a "
                                 "6 s watchdog, so a decoder that does not return on ended input is a violation and not a harness time-out.")
